@@ -18,6 +18,7 @@ TraceNext ==
          eff == Effective(e.arg, e.shape)
          direct == IF eff = "2.0" THEN e.d20 ELSE e.d21 IN
      /\ IF e.form \in {"bundle_dict", "bundle_dict_other_style"} /\ Norm(e.outcome) = Norm(IF eff = "2.0" THEN e.w20 ELSE e.w21)
+           /\ (e.arg = "none" \/ e.entry \in {"parse", "FileSystemSink.add", "FileSystemStore.add"})      \* (the memory entry points take the members one by one and pass the named version on)
         THEN TRUE    \* an entry point may take the bundle as a whole: then it answers as the direct parse of that same bundle with the effective version does
                      \* (otherwise it takes the members one by one and the rules below apply to the member)
         ELSE IF Obj(e.outcome) /\ ~IdAccept(eff, e.idc) /\ e.shape.t # "custom" /\ IdApplies(eff, e.shape)
